@@ -20,6 +20,11 @@ import (
 type term struct {
 	Atom string  // leaf, or "" for a sum
 	Add  []*term // saturating/raw sum of sub-terms
+	// Origin: for an alternative selected by a phi, the predecessor block
+	// it flows in from (its guards are the facts of that block)
+	Origin *ssa.BasicBlock
+	// OriginTo: the block of the phi (Origin -> OriginTo is the edge taken)
+	OriginTo *ssa.BasicBlock
 }
 
 func atom(s string) *term { return &term{Atom: s} }
@@ -69,6 +74,8 @@ type effEdge struct {
 	Fn     *ssa.Function
 	// Counter: the target holds a saturating counter (Count32/Count64)
 	Counter bool
+	// Alternatives: number of alternative operands selected at this site (>1: a phi chooses)
+	Alternatives int
 }
 
 func termsKey(ts []*term) string {
@@ -93,7 +100,9 @@ type effects struct {
 	Edges   []*effEdge            // after carrier expansion
 	ByNode  map[string][]*effEdge // expanded, by target
 	BySite  map[ssa.Instruction]*effEdge
-	carrier map[string]bool
+	// AllBySite: every alternative edge of a site
+	AllBySite map[ssa.Instruction][]*effEdge
+	carrier   map[string]bool
 	real    map[string]bool
 }
 
@@ -143,7 +152,7 @@ func (c *Ctx) effects() *effects {
 	if v, ok := c.memo["effects"]; ok {
 		return v.(*effects)
 	}
-	e := &effects{c: c, ByNode: map[string][]*effEdge{}, BySite: map[ssa.Instruction]*effEdge{}, carrier: map[string]bool{}, real: map[string]bool{}}
+	e := &effects{c: c, ByNode: map[string][]*effEdge{}, BySite: map[ssa.Instruction]*effEdge{}, AllBySite: map[ssa.Instruction][]*effEdge{}, carrier: map[string]bool{}, real: map[string]bool{}}
 	e.extract()
 	e.expand()
 	c.memo["effects"] = e
@@ -291,7 +300,11 @@ func cross(as, bs []*term) []*term {
 	var out []*term
 	for _, a := range as {
 		for _, b := range bs {
-			out = append(out, &term{Add: []*term{a, b}})
+			o, ot := a.Origin, a.OriginTo
+			if o == nil {
+				o, ot = b.Origin, b.OriginTo
+			}
+			out = append(out, &term{Add: []*term{a, b}, Origin: o, OriginTo: ot})
 		}
 	}
 	return out
@@ -338,8 +351,14 @@ func (e *effects) terms(v ssa.Value, depth int, seen map[ssa.Value]bool, m marks
 		return e.terms(x.X, depth, seen, m)
 	case *ssa.Phi:
 		var out []*term
-		for _, ed := range x.Edges {
-			out = append(out, e.terms(ed, depth, seen, m)...)
+		for i, ed := range x.Edges {
+			for _, t := range e.terms(ed, depth, seen, m) {
+				if t.Origin == nil && i < len(x.Block().Preds) {
+					t.Origin = x.Block().Preds[i]
+					t.OriginTo = x.Block()
+				}
+				out = append(out, t)
+			}
 		}
 		return out
 	case *ssa.BinOp:
@@ -501,6 +520,7 @@ func (e *effects) expand() {
 		}
 	}
 	var substTerm func(t *term, m marks, stack map[string]bool, depth int) []*term
+	var origin *ssa.BasicBlock
 	substAtom := func(a string, m marks, stack map[string]bool, depth int) []*term {
 		inner, wrapped := a, false
 		if strings.HasPrefix(a, "len(") && strings.HasSuffix(a, ")") {
@@ -528,6 +548,7 @@ func (e *effects) expand() {
 				}
 			}
 		}
+		_ = origin
 		if len(out) == 0 {
 			return []*term{atom(a)}
 		}
@@ -535,7 +556,18 @@ func (e *effects) expand() {
 	}
 	substTerm = func(t *term, m marks, stack map[string]bool, depth int) []*term {
 		if t.Atom != "" {
-			return substAtom(t.Atom, m, stack, depth)
+			res := substAtom(t.Atom, m, stack, depth)
+			for _, r := range res {
+				if r.Origin == nil {
+					if len(res) == 1 && r.Atom == t.Atom {
+						r = &term{Atom: r.Atom, Origin: t.Origin, OriginTo: t.OriginTo}
+						res[0] = r
+					} else {
+						r.Origin, r.OriginTo = t.Origin, t.OriginTo
+					}
+				}
+			}
+			return res
 		}
 		alts := []*term{nil}
 		for _, part := range t.flat() {
@@ -544,9 +576,9 @@ func (e *effects) expand() {
 			for _, a := range alts {
 				for _, p := range ps {
 					if a == nil {
-						next = append(next, &term{Add: []*term{p}})
+						next = append(next, &term{Add: []*term{p}, Origin: t.Origin, OriginTo: t.OriginTo})
 					} else {
-						next = append(next, &term{Add: append(append([]*term{}, a.Add...), p)})
+						next = append(next, &term{Add: append(append([]*term{}, a.Add...), p), Origin: t.Origin, OriginTo: t.OriginTo})
 					}
 				}
 			}
@@ -566,10 +598,31 @@ func (e *effects) expand() {
 		for _, t := range ed.Terms {
 			ts = append(ts, substTerm(t, m, map[string]bool{}, 0)...)
 		}
-		ne := &effEdge{Target: ed.Target, Op: ed.Op, Terms: ts, Marks: m, Site: ed.Site, Fn: ed.Fn, Counter: ed.Counter}
-		e.Edges = append(e.Edges, ne)
-		e.ByNode[ne.Target] = append(e.ByNode[ne.Target], ne)
-		e.BySite[ne.Site] = ne
+		// one edge per alternative: `x.Max(cond ? a : b)` is two updates selected by cond
+		byKey := map[string]*effEdge{}
+		var keys []string
+		for _, t := range ts {
+			k := t.String()
+			if prev, ok := byKey[k]; ok {
+				if prev.Terms[0].Origin == nil {
+					prev.Terms[0].Origin, prev.Terms[0].OriginTo = t.Origin, t.OriginTo
+				}
+				continue
+			}
+			byKey[k] = &effEdge{Target: ed.Target, Op: ed.Op, Terms: []*term{t}, Marks: m, Site: ed.Site, Fn: ed.Fn, Counter: ed.Counter}
+			keys = append(keys, k)
+		}
+		sort.Strings(keys)
+		for i, k := range keys {
+			ne := byKey[k]
+			ne.Alternatives = len(keys)
+			e.Edges = append(e.Edges, ne)
+			e.ByNode[ne.Target] = append(e.ByNode[ne.Target], ne)
+			if i == 0 {
+				e.BySite[ne.Site] = ne
+			}
+			e.AllBySite[ne.Site] = append(e.AllBySite[ne.Site], ne)
+		}
 	}
 	sort.SliceStable(e.Edges, func(i, j int) bool { return e.Edges[i].Key() < e.Edges[j].Key() })
 }
